@@ -357,7 +357,6 @@ theorem safe_bodyNextFrame (H : Huff) (tbl : List (List Nat × List Nat)) (b : B
               rename_i u s2
               have h3 := safe_discardFrame s2 h2
               ocases h3 : discardFrame s2
-              exact h3
           · have h2 := safe_discardUnknownFrame s1 ft h1
             ocases h2 : discardUnknownFrame s1 ft
             exact ih _ h2
@@ -408,10 +407,12 @@ theorem safe_bodyRead (H : Huff) (tbl : List (List Nat × List Nat)) (b : Body) 
     have hae := safe_afterEnd b s h
     split
     · rename_i r s' heq
-      rw [heq] at hae; exact hae
+      show SafeNext (some r, s')
+      rw [← heq]; exact hae
     · rename_i s1 heq
-      rw [heq] at hae
-      have h1 : Good s1 := hae
+      have h1 : Good s1 := by
+        show SafeNext (none, s1)
+        rw [← heq]; exact hae
       have hn := safe_bodyNextFrame H tbl b (s1.data.length + 2) s1 h1
       split
       · rename_i r s' heq2
